@@ -571,3 +571,58 @@ Example temporary_fixed_example :
   get_item (fst (fst r1)) "a" = inr (PInt 1) /\ snd r1 = Some EBoom /\
   get_item (fst (fst r2)) "b" = inr (PInt 2) /\ s_cache (fst (fst r2)) = [].
 Proof. vm_compute. repeat split; reflexivity. Qed.
+
+(* ------------------------------------------------------------------ the deprecation-alias path *)
+
+(* temporary_restores is stated through get_item, i.e. through _handle_deprecation: it covers a call that
+   names a deprecated option forwarding to another one.  Non-vacuity on that path: a well-formed state with
+   a deprecated alias, the theorem's premises, and what it yields. *)
+Definition d_dep (a : name) : decl := mkdecl None None None None false None None (Some (Some a)).
+Definition s_alias : st :=
+  fst (declare cfg_fixed (fst (declare cfg_fixed (st0 false) "a" d_int (Some (PInt 1)))) "old" (d_dep "a") None).
+
+Lemma s_alias_wf : forall c, wf c s_alias.
+Proof.
+  intros c. split.
+  - intros t e H.
+    assert (E : s_dict s_alias = [("a", mkentry d_int (Some (PInt 1))); ("old", mkentry (d_dep "a") None)]) by reflexivity.
+    rewrite E in H. apply alookup_in in H.
+    destruct H as [H | [H | []]]; subst e;
+      (split; [intros v w Hv Hw; inversion Hw; subst; split; auto
+              | intros v Hv; inversion Hv; subst; split; reflexivity]).
+  - intros n l H. discriminate.
+Qed.
+
+Example temporary_alias_example :
+  let body := [OSet "a" (PInt 9); OTemp [("a", PInt 7)] [ORaise]] in
+  let r := run_op cfg_fixed (OTemp [("old", PInt 5)] body) s_alias in
+  wf cfg_fixed s_alias /\ decl_free body = true /\
+  get_item s_alias "old" = inr (PInt 1) /\
+  get_item (fst (fst r)) "old" = inr (PInt 1) /\ get_item (fst (fst r)) "a" = inr (PInt 1) /\
+  s_cache (fst (fst r)) = [] /\ snd r = Some EBoom.
+Proof.
+  split; [apply s_alias_wf|]. vm_compute. repeat split; reflexivity.
+Qed.
+
+(* the same through the theorem: whatever the body, the deprecated name reads as before *)
+Corollary temporary_restores_alias : forall body v s' ob e,
+  decl_free body = true ->
+  run_op cfg_fixed (OTemp [("old", v)] body) s_alias = (s', ob, e) ->
+  get_item s' "old" = inr (PInt 1) /\ get_item s' "a" = inr (PInt 1).
+Proof.
+  intros body v s' ob e Hd H.
+  destruct (temporary_restores cfg_fixed [("old", v)] body s_alias s' ob e eq_refl (s_alias_wf _) Hd H)
+    as [R [_ [_ F]]].
+  split.
+  - rewrite (R "old" (or_introl eq_refl)). reflexivity.
+  - assert (K : get_item s' "a" = get_item s' "old").
+    { unfold get_item.
+      pose proof (frame_resolve s_alias s' "old" F) as Ro. pose proof (frame_resolve s_alias s' "a" F) as Ra.
+      change (resolve (s_dict s_alias) "old") with (@inr err _ ("a", mkentry d_int (Some (PInt 1)))) in Ro.
+      change (resolve (s_dict s_alias) "a") with (@inr err _ ("a", mkentry d_int (Some (PInt 1)))) in Ra.
+      destruct (resolve (s_dict s') "old") as [?|[t1 e1]] eqn:E1; [contradiction|].
+      destruct (resolve (s_dict s') "a") as [?|[t2 e2]] eqn:E2; [contradiction|].
+      destruct Ro as [Ro _]. destruct Ra as [Ra _]. subst t1 t2.
+      apply resolve_lookup in E1. apply resolve_lookup in E2. rewrite E1 in E2. inversion E2; subst. reflexivity. }
+    rewrite K, (R "old" (or_introl eq_refl)). reflexivity.
+Qed.
